@@ -340,6 +340,10 @@ fn plan_c16(thorough: bool) -> Plan {
     p
 }
 
+fn mk_multiworker_case(seed: &str, cfg: &Cfg, ops: Vec<Value>) -> Value {
+    json!({"seed": seed, "universe": ["seed:all"], "cfg": cfg.to_json(), "audit": "values", "ops": ops, "bound": 3, "final_reopen": true})
+}
+
 fn plan_c19(thorough: bool) -> Plan {
     let mut cases = structural_family(thorough, if thorough { &[64, 4096, 64000] } else { &[64, 4096] });
     cases.extend(crate::plans2::tombstone_family("noproof", thorough));
@@ -349,11 +353,39 @@ fn plan_c19(thorough: bool) -> Plan {
             cases.push(json!({"mode": "c03", "hist": h, "target": t, "bound": b, "cap": 4, "nested": false, "decode": true, "occupancy": true}));
         }
     }
+    // several beatree workers per commit: fill / thin out (7 of every 8 keys deleted) / empty
+    // cycles over 1500 keys with 2–4 commit workers (leaves handed over between neighbouring
+    // workers when both fall below the merge threshold), page accounting after every commit
+    for cc in [2usize, 3, 4] {
+        for seed in ["bulk", "wide"] {
+            let mut cfg = cfg_small();
+            cfg.cc = cc;
+            cfg.buckets = 4096;
+            let ops = vec![
+                json!({"c": [[0, "d78", 1500]]}),
+                json!({"c": [[0, "dn", 1500]]}),
+                json!({"c": [[0, "wn", 1500]]}),
+                json!({"c": [[0, "d78", 1500]]}),
+                json!({"c": [[0, "dn", 1500]]}),
+            ];
+            let mut cse = mk_multiworker_case(seed, &cfg, ops);
+            cse["image"] = json!("c19");
+            cases.push(cse);
+        }
+    }
+    // … and every schedule of the three leaf-stage workers of the merge-heavy commits (M2*), the
+    // branch-stage hand-over (M3*) with the same full page accounting after each schedule
+    for h in ["M2del", "M2shrink", "M2wipe"] {
+        cases.push(json!({"harness": h, "bound": 99, "max_exec": if thorough { 400000 } else { 3000 }, "budget_s": if thorough { 1500 } else { 35 }}));
+    }
+    for h in ["M3", "M3b"] {
+        cases.push(json!({"harness": h, "bound": 0, "max_exec": 3000, "budget_s": 35}));
+    }
     add_quiet(&mut cases, if thorough { 1 } else { 3 });
     sort_by_bound(&mut cases);
     let mut p = Plan::new(
         cases,
-        "histx + imgdec: the structural history family of C16 (including the histories committed through overlays and overlay chains); at every quiescent point the decoder's page accounting must give [1, bump) = in-use ⊎ free-list-tracked in both value files (no leak, no double use), and hash_table_utilization().occupied = number of full buckets in the decoded meta map = number of stored pages reachable from the root (0 for an empty store). Plus every process-crash cut of the explicit crash histories: the same accounting of occupancy on the handle that recovered the image.",
+        "histx + imgdec: the structural history family of C16 (including the histories committed through overlays and overlay chains); at every quiescent point the decoder's page accounting must give [1, bump) = in-use ⊎ free-list-tracked in both value files (no leak, no double use), and hash_table_utilization().occupied = number of full buckets in the decoded meta map = number of stored pages reachable from the root (0 for an empty store). Plus every process-crash cut of the explicit crash histories: the same accounting of occupancy on the handle that recovered the image. Plus commits executed by several value-tree workers: fill / thin out (7 of 8 keys deleted) / empty cycles over 1500 keys with 2, 3 and 4 commit workers, and every schedule of the three leaf-stage workers of three merge-heavy commits plus the branch-stage hand-over (harnesses M2del, M2shrink, M2wipe, M3, M3b of C13), each followed by the full page accounting.",
     );
     p.budget_s = if thorough { 1500 } else { 55 };
     p
